@@ -17,6 +17,7 @@ func runC12(e *Env) error {
 	r.Rule = "macro signatures with 0–4 parameters and every subset of defaults (exhaustive for arity ≤ 3), argument lists of 0…arity+2 values, bodies that print every parameter, an outer variable, a sibling macro call and assign a variable; " +
 		"each call made through five routes (local name, _self, import … as, from … import, from … import … as) and from inside a for loop, a block, an included template and another macro; " +
 		"the value of a macro call handed to another macro as an argument or stored with set and printed 0–3 times, interleaved with other calls, through every route; " +
+		"the caller's names read AFTER the call (and after a second call): macro alone in its template / with siblings before, after, around × 0–2 parameters × body assigning by set, for, for key/value, do, import as, from import as, include, several × caller holding the name as data, set, loop variable, macro parameter, in a block, in an include, import alias, from-imported macro × five routes (deterministic sweep); " +
 		"oracles (implementation-only): positional binding with defaults/null (independent spec), all routes give identical output, the body's assignments are invisible to the caller; plus the Lean pipeline; " +
 		"non-trivial = arity ≥ 1; distinct by signature × argument count × route × placement"
 	params := []string{"p", "q", "r", "s"}
@@ -267,6 +268,10 @@ func runC12(e *Env) error {
 	}
 	// the value of a macro call handed on as an argument / stored with set and printed 0…3 times (c12_values.go)
 	if err := runC12Values(e); err != nil {
+		return err
+	}
+	// what a macro call leaves behind in its caller, by what else lives in the macro's template (c12_isolation.go)
+	if err := runC12Isolation(e); err != nil {
 		return err
 	}
 	r.Sample(map[string]any{"lib": "{% macro m(p, q = 7) %}M([{{ p }}][{{ q }}]g={{ g }};{{ sib('z') }}…){% endmacro %}", "routes": []string{"m(1)", "_self.m(1)", "L.m(1)", "from 'lib' import m", "from 'lib' import m as mm"}})
